@@ -68,6 +68,13 @@ def natarg_tok(a):
     return f"{a['kind']}:{a['value']}"
 
 
+def run_lines_e(exe, args, lines, **kw):
+    """run_lines that maps no input lines to no output lines"""
+    if not lines:
+        return 0, [], ""
+    return run_lines(exe, args, lines, **kw)
+
+
 def run(ctx):
     quick = ctx.quick()
     st = family_setup(ctx, PROPS, n_random=6 if quick else 50, tl2_random=False)
@@ -120,7 +127,7 @@ def run(ctx):
                     break
                 enc_lines.append(f"enc 0 {ft} {name} 1 | {vtext(q)}")
                 enc_meta.append((ft, name, x, q))
-        rc, enc_out, err = run_lines(st.ref, margs, enc_lines)
+        rc, enc_out, err = run_lines_e(st.ref, margs, enc_lines)
         if rc != 0 or len(enc_out) != len(enc_lines):
             with lock:
                 unit_errors.append((u.name, f"model driver failed (request enc): rc={rc} {err[-300:]}"))
@@ -131,7 +138,7 @@ def run(ctx):
         for (ft, name, x, q), rq in reqs:
             na = x["result"].get("natArgs") or []
             env_lines.append(f"renv {ft} {len(na)} " + " ".join(natarg_tok(a) for a in na) + f" | {rq}")
-        rc, env_out, err = run_lines(st.ref, margs, env_lines)
+        rc, env_out, err = run_lines_e(st.ref, margs, env_lines)
         if rc != 0 or len(env_out) != len(env_lines):
             with lock:
                 unit_errors.append((u.name, f"model driver failed (renv): rc={rc} {err[-300:]}"))
@@ -160,7 +167,7 @@ def run(ctx):
                 boxed = 0 if r["bare"] else 1
                 renc.append(f"enc 0 {r['type']} res {boxed} " + " ".join(str(p) for p in ps) + f" | {vtext(v)}")
                 rmeta.append((ft, name, x, rq, ps))
-        rc, renc_out, err = run_lines(st.ref, margs, renc)
+        rc, renc_out, err = run_lines_e(st.ref, margs, renc)
         if rc != 0 or len(renc_out) != len(renc):
             with lock:
                 unit_errors.append((u.name, f"model driver failed (result enc): rc={rc} {err[-300:]}"))
@@ -200,7 +207,7 @@ def run(ctx):
         gl = [o[0] for o in ops]
         ml = [o[1] for o in ops]
         go = run_lines_resilient(u.gen.exe, [], gl, timeout=900, max_restarts=10)
-        rc, mo, err = run_lines(st.ref, margs, ml, timeout=900)
+        rc, mo, err = run_lines_e(st.ref, margs, ml, timeout=900)
         if rc != 0 or len(mo) != len(ml) or len(go) != len(gl):
             with lock:
                 unit_errors.append((u.name, f"driver failed: model rc={rc} lines {len(mo)}/{len(ml)} go {len(go)}/{len(gl)} {err[-300:]}"))
